@@ -57,7 +57,7 @@ mod verif_c04 {
         Chunk {
             code,
             lines: Vec::new(),
-            constant_map: HashMap::with_hasher(random_state_stub()),
+            constant_map: std::collections::HashMap::with_hasher(random_state_stub()),
             constants: Vec::new(),
         }
     }
